@@ -90,6 +90,13 @@ What the seeded changes made me strengthen (each was a miss or an "undecided" be
 * **C06-5 (blocking recv in the DropOldest arm), C04-5 (Store::stop forwards to close)**: both were rejected by Verus for a
   missing ghost argument only; `recv` (declared a blocking call) and `close` were added to the callees of `send` and of the
   trait method, and Verus now decides them.
+* **C15-5 (close keeps the sender when the marker is refused)**: `lock_close` now lets the channel answer Ok or Err.
+  **C17-6 (add_middleware de-duplicates by identity)**: the builder witness got the letter `D` (the same instance again).
+  **C19-5 (on_unsubscribe skipped when the Arc has other holders)**: witness scenario `sharedrelease`.
+  **C06-6 (close() spinning on a refused marker under the dispatch lock)**: the `balance` suite runs close() and a racing
+  dispatch in bounded threads — with a drop policy neither may wait for the parked reducer.
+* Also not kept: `do_notify` swallowing a panicking subscriber with `catch_unwind` (written against C16): callbacks that
+  panic are outside every statement.
 * Not kept from the last wave: evaluating the selector under the `last_value` lock (a panicking selector then poisons the
   lock) — callbacks that panic are outside the statement of C16, the check holds on it.
 * One change of wave 7 was *not* kept: dropping `need_dispatch = true` from the Dispatch arm of `do_reduce` only
